@@ -123,7 +123,7 @@ func c04Gen(t *rapid.T) c04Case {
 	for i := 0; i < n; i++ {
 		var o c04Op
 		o.Kind = rapid.SampledFrom([]string{"create", "create", "create", "create", "createfrom", "createfrom", "copy", "copy", "delete", "delete", "delete",
-			"pull", "pull", "restart", "blob", "list"}).Draw(t, "kind")
+			"pull", "pull", "restart", "blob", "list", "pardelete", "pardelete"}).Draw(t, "kind")
 		// names are drawn from a small sub-pool most of the time so that operations collide
 		if rapid.IntRange(0, 3).Draw(t, "wide") == 0 {
 			o.Name = rapid.IntRange(0, 10000).Draw(t, "name")
@@ -178,6 +178,15 @@ func (e *c04Env) do(method, path string, body any) (int, []byte) {
 	// still be working (until it parks on that channel for ever): let it get there, as a client's next request would
 	// normally arrive much later
 	synctest.Wait()
+	return w.Code, w.Body.Bytes()
+}
+
+// doNoWait is do for requests issued concurrently (the caller settles once all of them have returned).
+func (e *c04Env) doNoWait(method, path string, body any) (int, []byte) {
+	js, _ := json.Marshal(body)
+	req := httptest.NewRequest(method, path, bytes.NewReader(js))
+	w := &c04Recorder{ResponseRecorder: httptest.NewRecorder()}
+	e.h.ServeHTTP(w, req)
 	return w.Code, w.Body.Bytes()
 }
 
@@ -283,7 +292,10 @@ func (e *c04Env) restart() error {
 	if _, err := Manifests(false); err != nil {
 		// corrupt manifests: the server skips pruning (reported elsewhere if a listed model is affected)
 		e.cls["prune_skipped_corrupt_manifest"] = true
-		e.pruneSkipped = fmt.Sprint(err); if os.Getenv("C04_KEEP") != "" { fmt.Println("PRUNE SKIPPED:", err) }
+		e.pruneSkipped = fmt.Sprint(err)
+		if os.Getenv("C04_KEEP") != "" {
+			fmt.Println("PRUNE SKIPPED:", err)
+		}
 		return nil
 	}
 	e.pruneSkipped = ""
@@ -320,7 +332,11 @@ func c04RunInner(c c04Case) (classes []string, nontrivial bool, err error) {
 	if derr != nil {
 		return nil, false, nil
 	}
-	defer func() { if os.Getenv("C04_KEEP") == "" { os.RemoveAll(dir) } }()
+	defer func() {
+		if os.Getenv("C04_KEEP") == "" {
+			os.RemoveAll(dir)
+		}
+	}()
 	os.Setenv("OLLAMA_MODELS", dir)
 	os.Unsetenv("OLLAMA_NOPRUNE")
 	frHome()
@@ -485,6 +501,27 @@ func c04RunInner(c c04Case) (classes []string, nontrivial bool, err error) {
 				e.cls["obs_delete_of_listed_failed"] = true
 				_, _ = was, body
 			}
+		case "pardelete":
+			// two clients delete two models at the same moment. Deletes only remove a blob after looking at every
+			// manifest, so whatever the interleaving a model that is not being deleted keeps its data (clause 2 of the
+			// statement has no "one at a time" proviso); outcomes of the two requests themselves are not judged.
+			addressed[c04Key(name)], addressed[c04Key(name2)] = true, true
+			desc += " " + name + " || " + name2
+			_, l1 := before[c04Key(name)]
+			_, l2 := before[c04Key(name2)]
+			if l1 && l2 && c04Key(name) != c04Key(name2) {
+				e.cls["concurrent_deletes_of_two_listed_models"] = true
+			}
+			var wg sync.WaitGroup
+			for _, n := range []string{name, name2} {
+				wg.Add(1)
+				go func(n string) {
+					defer wg.Done()
+					e.doNoWait("DELETE", "/api/delete", map[string]any{"model": n})
+				}(n)
+			}
+			wg.Wait()
+			synctest.Wait()
 		case "pull":
 			addressed[c04Key(name)] = true
 			desc += " " + name
@@ -519,7 +556,7 @@ func c04RunInner(c c04Case) (classes []string, nontrivial bool, err error) {
 					return nil
 				}
 				var mf struct {
-					Config struct{ Digest string } `json:"config"`
+					Config struct{ Digest string }   `json:"config"`
 					Layers []struct{ Digest string } `json:"layers"`
 				}
 				if b, rerr := os.ReadFile(p); rerr == nil && json.Unmarshal(b, &mf) == nil {
@@ -573,7 +610,7 @@ func c04RunInner(c c04Case) (classes []string, nontrivial bool, err error) {
 						}
 					}
 				}
-				if shared && (o.Kind == "delete" || o.Kind == "create" || o.Kind == "createfrom" || o.Kind == "pull") {
+				if shared && (o.Kind == "delete" || o.Kind == "pardelete" || o.Kind == "create" || o.Kind == "createfrom" || o.Kind == "pull") {
 					nontrivial = true
 					e.cls["modifies_model_sharing_layers"] = true
 				}
